@@ -10,6 +10,7 @@ from scoda.sequences.relative_sequence import RelativeSequence
 from scoda.sequences.sequence import Sequence
 
 ENGINE = "E1-sweep"
+TICK_EVERY = 5      # every 5th case of every unit is repeated with numpy integer ticks (int64 / int32)
 RULE = ("ALL words of relative messages up to the length bound over the symbol alphabet (note-on/off x channels x "
         "pitches, wait 1/2, two time signatures, two key signatures), ill-formed ones included; distinct = distinct "
         "words; non-trivial = the word contains a re-trigger, orphan, unclosed note, nesting or a repeated signature")
@@ -147,7 +148,7 @@ def gen_cases(unit, ctx):
 
 def mk(sym):
     if sym[0] == "w":
-        return Message(message_type=MT.WAIT, time=int(sym[1:]))
+        return Message(message_type=MT.WAIT, time=lib.tk(int(sym[1:])))
     if sym.startswith("ts"):
         return Message(message_type=MT.TIME_SIGNATURE, numerator=int(sym[2]), denominator=int(sym[3]))
     if sym.startswith("ks"):
